@@ -155,6 +155,7 @@ def _symbolic_comp(ex, st, e, kind, g, it):
     s1.assume(z3.And(i >= 0, i < seq.len))
     npc = len(s1.pc)
     heap0 = dict(s1.heap)
+    alloc0 = s1.alloc
     outs = ex.assign_target(g.target, seq.at(i), s1)
     if len(outs) != 1 or outs[0].kind != "next":
         raise _U("comprehension target", e)
@@ -189,9 +190,17 @@ def _symbolic_comp(ex, st, e, kind, g, it):
     ov = [o for o in ov_all if o.kind == "val"]
     if any(o.kind not in ("val", "raise") for o in ov_all) or not ov:
         raise _U("comprehension body does not yield a value on a symbolic element", e)
-    for o in ov:
-        if any(not (k in heap0 and heap0[k].eq(a)) for k, a in o.st.heap.items() if k in heap0):
-            raise _U("comprehension body writes the heap", e)
+    def _written(k, a):
+        if k in heap0:
+            return not heap0[k].eq(a)
+        return not z3.is_const(a)          # a field first *read* inside the body shows up as its initial array constant; anything else is a write
+    writes = [o for o in ov if not o.st.alloc.eq(alloc0) or any(_written(k, a) for k, a in o.st.heap.items())]
+    if writes:
+        # the body constructs objects (e.g. [SessionInfo(...) for ev in evs]): supported when there is one normal outcome and every heap write
+        # goes to an object allocated by the body itself; the objects of the different elements are NEW(i), pairwise distinct and fresh
+        if len(ov) != 1:
+            raise _U("comprehension body that allocates objects has several normal outcomes", e)
+        _lift_allocating_body(ex, st, ov[0].st, alloc0, heap0, n_pc0, n0, i, z3.And(i >= 0, i < seq.len), list(ov[0].st.decisions[nd0:]) + [cond], e)
     vals = [ex.to_storable(o.val) for o in ov]
     ts = [ty.type_of(v) for v in vals]
     if any(t_ is None for t_ in ts):
@@ -232,6 +241,63 @@ def _symbolic_comp(ex, st, e, kind, g, it):
     raise _U("comprehension kind", e)
 
 
+def _stores(a):
+    """(base array, [(index, value), ...]) of a nest of stores"""
+    out = []
+    while z3.is_app(a) and a.decl().kind() == z3.Z3_OP_STORE:
+        out.append((a.arg(1), a.arg(2)))
+        a = a.arg(0)
+    return a, out[::-1]
+
+
+def _lift_allocating_body(ex, st, sk, alloc0, heap0, n_pc, n0, i, rng, guards, node):
+    """The body of a comprehension, executed once in the fork `sk` on the Skolem index i, allocated objects and initialised their fields.
+    In the state `st` after the comprehension: each such object is a function NEW(i) of the element index (not allocated before, pairwise
+    distinct, allocated afterwards), every heap field differs from its old value only at these objects, where it holds the value the body
+    stored (as a function of i).  Heap writes to any other object are not supported."""
+    base, allocs = _stores(sk.alloc)
+    if not base.eq(alloc0):
+        raise _U("comprehension body: allocation state cannot be related to the state before the comprehension", node)
+    fresh = [idx for idx, _ in allocs]
+    if not fresh:
+        raise _U("comprehension body writes the heap of existing objects", node)
+    grd = z3.And(rng, *guards) if guards else rng
+    r = z3.Const(ty.fresh_name("cr"), ty.RefSort)
+    j = z3.Int(ty.fresh_name("cj"))
+    lifted_fresh = lift_fork(st, sk, n_pc, n0, i, list(fresh), rng, guards=guards)
+    grd_l = lift_fork(st, sk, len(sk.pc), n0, i, [grd], rng)[0]
+    new_alloc = z3.Const(ty.fresh_name("alloc"), alloc0.sort())
+    st.assume(ty.FA([r], z3.Implies(z3.Select(alloc0, r), z3.Select(new_alloc, r)), patterns=[z3.Select(new_alloc, r)]))
+    for a_, f in enumerate(lifted_fresh):
+        st.assume(ty.FA([i], z3.Implies(grd_l, z3.And(f != 0, z3.Not(z3.Select(alloc0, f)), z3.Select(new_alloc, f))), patterns=[f]))
+        fj = z3.substitute(f, (i, j))
+        st.assume(ty.FA([i, j], z3.Implies(z3.And(grd_l, z3.substitute(grd_l, (i, j)), i != j), f != fj), patterns=[z3.MultiPattern(f, fj)]))
+        for g in lifted_fresh[a_ + 1:]:
+            st.assume(ty.FA([i, j], z3.Implies(z3.And(grd_l, z3.substitute(grd_l, (i, j))), f != z3.substitute(g, (i, j))),
+                            patterns=[z3.MultiPattern(f, z3.substitute(g, (i, j)))]))
+    st.alloc = new_alloc
+    for k, a1 in sk.heap.items():
+        a0 = heap0.get(k)
+        if a0 is not None and a0.eq(a1):
+            continue
+        b, sts = _stores(a1)
+        if a0 is None:
+            a0 = b                         # the field was first touched inside the body: its initial array
+        if not b.eq(a0):
+            raise _U(f"comprehension body replaces the heap field {k} (a callee with a frame wider than the allocated objects)", node)
+        if any(not any(idx.eq(fr) for fr in fresh) for idx, _ in sts):
+            raise _U(f"comprehension body writes {k} of an object it did not allocate", node)
+        h1 = z3.Const(ty.fresh_name(f"H:{k}"), a0.sort())
+        st.assume(ty.FA([r], z3.Implies(z3.Select(alloc0, r), z3.Select(h1, r) == z3.Select(a0, r)), patterns=[z3.Select(h1, r)]))
+        last = {}
+        for idx, val in sts:
+            last[idx.get_id()] = (idx, val)
+        for idx, val in last.values():
+            li, lv = lift_fork(st, sk, len(sk.pc), n0, i, [idx, val], rng)
+            st.assume(ty.FA([i], z3.Implies(grd_l, z3.Select(h1, li) == lv), patterns=[li]))
+        st.heap[k] = h1
+
+
 def _symbolic_dict_comp(ex, st, e, s1, seq, i, cond, n0, n_pc0, nd0):
     """{key(x): value(x) for x in seq [if cond]} over a symbolic sequence: the mapping whose domain is the set of keys that occur and whose
     value at a key is the value of its LAST occurrence (explicit witness function); the key order is left unspecified (some enumeration)."""
@@ -241,9 +307,15 @@ def _symbolic_dict_comp(ex, st, e, s1, seq, i, cond, n0, n_pc0, nd0):
     ok = ex.eval(e.key, s1)
     if len(ok) != 1 or ok[0].kind != "val":
         raise _U("dict comprehension key forks or raises on a symbolic element", e)
-    ovs = ex.eval(e.value, ok[0].st)
-    if len(ovs) != 1 or ovs[0].kind != "val":
-        raise _U("dict comprehension value forks or raises on a symbolic element", e)
+    ovs_all = ex.eval(e.value, ok[0].st)
+    # the value may raise on some element (a callee's exceptional outcome): the comprehension then raises in the unchanged state; the normal
+    # outcome carries the negated raise conditions among its facts, lifted to all indices (as for list comprehensions)
+    raised = [o for o in ovs_all if o.kind == "raise"]
+    for o in raised:
+        o.st.frames.pop()
+    ovs = [o for o in ovs_all if o.kind == "val"]
+    if len(ovs) != 1 or len(ovs) + len(raised) != len(ovs_all):
+        raise _U("dict comprehension value forks on a symbolic element", e)
     kv = ex.coerce(ty.Id, ok[0].val, e)
     vv = ex.to_storable(ovs[0].val)
     vt = ty.type_of(vv)
@@ -264,7 +336,7 @@ def _symbolic_dict_comp(ex, st, e, s1, seq, i, cond, n0, n_pc0, nd0):
     st.assume(ty.FA([k], z3.Implies(z3.Select(dom, k), z3.And(inr(lp(k)), at(key_i, lp(k)) == k, *[z3.Select(a, k) == at(v, lp(k)) for a, v in zip(arrs, val_i)])),
                     patterns=[z3.Select(dom, k)]))
     keys = pdlib.enumerate_domain(ex, st, dom, "dckeys")
-    return [Out("val", ty.MapV(ty.Id, vt, dom, arrs, keys), st)]
+    return [Out("val", ty.MapV(ty.Id, vt, dom, arrs, keys), st)] + raised
 
 
 FLT_LEN = z3.Function("flt_len", z3.ArraySort(z3.IntSort(), z3.BoolSort()), z3.IntSort(), z3.IntSort())
